@@ -151,7 +151,7 @@ let parse_op (ws : string list) : map_op =
   | "dropmap" -> OpDropMap
   | "par_iter" | "par_keys" | "par_values" -> OpIter
   | "par_iter_mut" | "par_values_mut" -> OpRetain ([], z 2)          (* keep list is filled in by the caller *)
-  | "into_par_iter" -> OpDrain (nat_of_int 0)
+  | "into_par_iter" | "intoiter" | "intokeys" | "intovalues" -> OpDrain (nat_of_int 0)
   | "par_drain" -> OpDrain (nat_of_int 0)                            (* count filled in by the caller *)
   | "par_extend" -> OpExtend (List.map parse_kv3 (rest 2))
   | "par_split" -> OpLen
@@ -330,7 +330,7 @@ let parse_top (ws : string list) : tbl_op =
   | "tdrop" -> TDropTable
   | "tpar_iter" -> TIter
   | "tpar_iter_mut" -> TRetain ([], z 2)                             (* keep list is filled in by the caller *)
-  | "tinto_par_iter" | "tpar_drain" -> TDrain (nat_of_int 0)         (* count filled in by the caller *)
+  | "tinto_par_iter" | "tpar_drain" | "tintoiter" -> TDrain (nat_of_int 0)         (* count filled in by the caller *)
   | o -> failwith ("unknown table op " ^ o)
 
 let tout_text (o : tout) : string =
@@ -773,10 +773,10 @@ let () =
          (* rayon operations (C19): no step model (the delivery order is the scheduler's choice); judged
             against the reference multiset (A) like their sequential counterparts and by the invariant (B) *)
          let topname = List.hd opws in
-         let is_tpar = List.mem topname ["tpar_iter"; "tpar_iter_mut"; "tinto_par_iter"; "tpar_drain"] in
+         let is_tpar = List.mem topname ["tpar_iter"; "tpar_iter_mut"; "tinto_par_iter"; "tpar_drain"; "tintoiter"] in
          let op = (match topname, op with
            | "tpar_iter_mut", TRetain (_, add) -> TRetain (List.map (fun (e : kv) -> e.k_id) (occupants (table_of_dump (parse_dump pre_s))), add)
-           | ("tinto_par_iter" | "tpar_drain"), _ ->
+           | ("tinto_par_iter" | "tpar_drain" | "tintoiter"), _ ->
              (match parse_tout ret_s with Some (TOutList l) -> TDrain (nat_of_int (List.length l)) | _ -> op)
            | _ -> op) in
          (* 1- and 2-byte elements carry only their id (stamp and value are 0); zero-sized elements
@@ -882,7 +882,7 @@ let () =
          if big then bump branch "table_too_big_to_dump";
          let do_b = do_b && not big and do_c = do_c && not big and do_a = do_a && not big in
          let is_serde = String.length opname >= 6 && String.sub opname 0 6 = "serde_" in
-         let is_par = (String.length opname >= 4 && String.sub opname 0 4 = "par_") || opname = "into_par_iter" || is_serde || opname = "getmanymut"
+         let is_par = (String.length opname >= 4 && String.sub opname 0 4 = "par_") || opname = "into_par_iter" || List.mem opname ["intoiter"; "intokeys"; "intovalues"] || is_serde || opname = "getmanymut"
                       || opname = "from_par_iter" || List.mem opname ["spar_iter"; "sinto_par_iter"; "spar_drain"; "spar_extend"] in
          let own_rule = opname = "from_par_iter" || opname = "par_eq" in
          if opname = "serde_de" then
@@ -967,7 +967,7 @@ let () =
             delivery order is the scheduler's choice, so there is no step model for them *)
          let op = (match opname, op0 with
            | ("par_iter_mut" | "par_values_mut"), OpRetain (_, add) -> OpRetain (List.map (fun (e : kv) -> e.k_id) (occupants tpre), add)
-           | "par_drain", _ | "into_par_iter", _ | "spar_drain", _ | "sinto_par_iter", _ ->
+           | "par_drain", _ | "into_par_iter", _ | "spar_drain", _ | "sinto_par_iter", _ | "intoiter", _ | "intokeys", _ | "intovalues", _ ->
              (match parse_out ret_s with Some (OutList l) -> OpDrain (nat_of_int (List.length l)) | _ -> op0)
            | _ -> op0) in
          if chk_s <> "ok" then say "H-FAIL %s: harness check: %s" where chk_s;
@@ -1007,6 +1007,7 @@ let () =
          let is_libpanic = (match strip_prefix "libpanic" ret_s with Some _ -> parse_out ret_s = None && opname <> "getmanymut" | None -> false) in
          if is_libpanic then say "A-FAIL %s: the library panicked: %s" where ret_s;
          let ret = parse_out ret_s in
+         if ret = Some OutUnwind then bump branch ("unwound_" ^ (match armws with (a :: _) :: _ -> a | _ -> "op"));
          (* ---- level B ---- *)
          if do_b then begin
            incr b_checked;
